@@ -462,50 +462,94 @@ def run(repo: Repo, ctx) -> None:
 
     # ---- R6 savepoint loops ----------------------------------------------------
     ctx.floor('C09.R6', 6)
-    for name, test_first in (('_rollback_to_savepoint', True),
-                             ('_release_savepoint', False)):
+
+    def with_helpers(f: FuncInfo):
+        out = [f]
+        for c in ast.walk(f.node):
+            if isinstance(c, ast.Call) and isinstance(
+                    c.func, ast.Attribute) and norm(c.func.value) == 'self':
+                h = tx.methods.get(c.func.attr)
+                if h is not None and h not in out:
+                    out.append(h)
+        return out
+
+    for name, rollback in (('_rollback_to_savepoint', True),
+                           ('_release_savepoint', False)):
         f = repo.find_method(tx.qualname, name)
         if f is None:
             raise AnalysisError(f'C09.R6: {name} not found')
-        loops = [n for n in f.node.body if isinstance(n, ast.For)]
-        if len(loops) != 2:
-            raise AnalysisError(f'C09.R6: {name}: expected 2 loops')
-        lp = loops[0]
-        ok = norm(lp.iter) == 'reversed(self._savepoints.values())'
-        ctx.ob('C09.R6', f'{name}:newest-first', ok,
-               f'{name} does not scan savepoints newest-first: '
-               f'{norm(lp.iter)}', f.loc, sample=norm(lp.iter))
-        ok = bool(lp.orelse) and isinstance(lp.orelse[0], ast.Raise) \
-            and 'TransactionError' in norm(lp.orelse[0])
-        ctx.ob('C09.R6', f'{name}:no-match-raises', ok,
-               f'{name} does not raise when no savepoint has the name',
-               f.loc, sample='for..else: raise TransactionError')
-        idx_test = idx_app = None
-        for i, st in enumerate(lp.body):
-            if isinstance(st, ast.If) and norm(st.test) == 'sp.name == name':
-                idx_test = i
-                brk = any(isinstance(x, ast.Break) for x in st.body)
-                if test_first:
-                    sets = any(norm(x) == 'self._current = sp'
-                               for x in st.body)
-                else:
-                    sets = True
-            if norm(st) == 'sp_ids_to_erase.append(sp.id)':
-                idx_app = i
-        ok = idx_test is not None and idx_app is not None and brk and sets \
-            and ((idx_test < idx_app) if test_first else (idx_app < idx_test))
+        fs = with_helpers(f)
+        search = [(h, lp) for h in fs for lp in ast.walk(h.node)
+                  if isinstance(lp, ast.For) and '_savepoints' in norm(lp.iter)
+                  and any(isinstance(t, ast.If) and norm(t.test) in (
+                      'sp.name == name', f'{norm(lp.target)}.name == name')
+                      for t in ast.walk(lp))]
+        if not search:
+            raise AnalysisError(f'C09.R6: {name}: no savepoint search loop')
+        for h, lp in search:
+            ok = norm(lp.iter) == 'reversed(self._savepoints.values())'
+            ctx.ob('C09.R6', f'{name}:newest-first', ok,
+                   f'{name} (via {h.name}) scans savepoints as '
+                   f'`{norm(lp.iter)}`: with two live savepoints of the same '
+                   f'name the OLDER one is found instead of the most recent',
+                   h.loc, sample=norm(lp.iter))
+            # not found -> TransactionError
+            after = h.node.body[h.node.body.index(lp) + 1:] if lp in \
+                h.node.body else []
+            ok = (bool(lp.orelse) and isinstance(lp.orelse[0], ast.Raise)
+                  and 'TransactionError' in norm(lp.orelse[0])) or (
+                bool(after) and isinstance(after[0], ast.Raise)
+                and 'TransactionError' in norm(after[0])
+                and any(isinstance(x, ast.Return) for x in ast.walk(lp)))
+            ctx.ob('C09.R6', f'{name}:no-match-raises', ok,
+                   f'{name} does not raise when no savepoint has the name',
+                   h.loc, sample='raise TransactionError')
+        # which savepoints are erased
+        shape = None
+        h, lp = search[0]
+        if h is f and any(norm(st) == 'sp_ids_to_erase.append(sp.id)'
+                          for st in lp.body):
+            idx_test = idx_app = None
+            sets = not rollback
+            for i, st in enumerate(lp.body):
+                if isinstance(st, ast.If) and norm(st.test) == \
+                        'sp.name == name':
+                    idx_test = i
+                    if rollback:
+                        sets = any(norm(x) == 'self._current = sp'
+                                   for x in st.body)
+                if norm(st) == 'sp_ids_to_erase.append(sp.id)':
+                    idx_app = i
+            er = [n for n in f.node.body if isinstance(n, ast.For)
+                  and norm(n.iter) == 'sp_ids_to_erase']
+            ok = idx_test is not None and idx_app is not None and sets and (
+                (idx_test < idx_app) if rollback else (idx_app < idx_test)) \
+                and len(er) == 1 and norm(er[0].body[0]) == \
+                'self._savepoints.pop(sp_id)'
+            shape = 'collect-then-erase'
+        else:
+            # id-based erase after a lookup helper
+            cmp_ = [n for n in ast.walk(f.node) if isinstance(n, ast.If)
+                    and isinstance(n.test, ast.Compare)
+                    and norm(n.test.comparators[0]).endswith('.id')
+                    and any('_savepoints.pop(' in norm(x) for x in n.body)]
+            if len(cmp_) == 1:
+                shape = 'erase-by-id'
+                op = cmp_[0].test.ops[0]
+                ok = isinstance(op, ast.Gt) if rollback else isinstance(
+                    op, ast.GtE)
+                if rollback:
+                    ok = ok and any(norm(x).startswith('self._current = ')
+                                    for x in ast.walk(f.node)
+                                    if isinstance(x, ast.Assign))
+            else:
+                raise AnalysisError(f'C09.R6: {name}: unrecognised erase '
+                                    f'shape: cannot decide')
         ctx.ob('C09.R6', f'{name}:order', ok,
-               (f'{name}: the savepoint rolled back to must survive '
-                f'(test before erase) and become _current' if test_first
-                else f'{name}: the released savepoint must itself be erased '
-                     f'(erase before test)'), f.loc,
-               sample='test<append' if test_first else 'append<test')
-        er = loops[1]
-        ok = norm(er.iter) == 'sp_ids_to_erase' and len(er.body) == 1 and \
-            norm(er.body[0]) == 'self._savepoints.pop(sp_id)'
-        ctx.ob('C09.R6', f'{name}:erase', ok,
-               f'{name} does not erase exactly the collected savepoints',
-               f.loc, sample='for sp_id in sp_ids_to_erase: pop')
+               (f'{name}: the savepoint rolled back to must survive and '
+                f'become _current, later ones are erased' if rollback
+                else f'{name}: the released savepoint itself and all later '
+                     f'ones must be erased'), f.loc, sample=shape)
     # migration helpers delegate to the same workers
     for name, target in (('abort_migration', '_rollback_to_savepoint'),
                          ('commit_migration', '_release_savepoint'),
@@ -527,33 +571,76 @@ def run(repo: Repo, ctx) -> None:
     ctx.ob('C09.R7', 'sync_to_savepoint:lookup-failure-raises', ok,
            f'unknown savepoint id does not raise ({why})', f.loc,
            sample='if not can_sync: raise')
-    txt = [norm(s) for s in f.node.body]
-    for want in (f'sp = self._savepoints_log[{spid}]',
-                 'self._current_tx = sp.tx',
-                 'self._current_tx._current = sp',
-                 f'self._current_tx._id = {spid}'):
-        ctx.ob('C09.R7', f'sync_to_savepoint:{want.split(" = ")[0]}',
-               want in txt, f'`{want}` missing: state not restored from the '
-               f'looked-up savepoint', f.loc, sample=want)
-    prunes = [n for n in f.node.body if isinstance(n, ast.For)]
+    # stores performed by sync_to_savepoint itself or by a Transaction
+    # helper it hands the looked-up state to (one level)
+    stores = {}
+    for n in ast.walk(f.node):
+        if isinstance(n, ast.Assign) and isinstance(
+                n.targets[0], ast.Attribute):
+            stores[n.targets[0].attr] = norm(n.value)
+        if isinstance(n, ast.Call) and isinstance(n.func, ast.Attribute) \
+                and n.func.attr in tx.methods and n.args:
+            h = tx.methods[n.func.attr]
+            hp = h.params()[1:]
+            amap = {p: norm(a) for p, a in zip(hp, n.args)}
+            for x in ast.walk(h.node):
+                if isinstance(x, ast.Assign) and isinstance(
+                        x.targets[0], ast.Attribute) and norm(
+                            x.targets[0].value) == 'self':
+                    v = norm(x.value)
+                    for p_, a_ in amap.items():
+                        v = v.replace(p_, a_)
+                    stores[x.targets[0].attr] = v
+    look = [n for n in walk_no_nested(f.node) if isinstance(n, ast.Assign)
+            and norm(n.value) == f'self._savepoints_log[{spid}]']
+    spv = norm(look[0].targets[0]) if look else 'sp'
+    for attr, wants in (('_current_tx', [f'{spv}.tx']),
+                        ('_current', [spv]),
+                        ('_id', [spid, f'{spv}.id'])):
+        got = stores.get(attr)
+        ctx.ob('C09.R7', f'sync_to_savepoint:restores{attr}',
+               bool(look) and got in wants,
+               f'after re-synchronising to a savepoint, {attr} is '
+               f'{"not assigned" if got is None else "assigned " + got}; '
+               f'expected {wants[0]}: the compiler state would not be the '
+               f'savepoint\'s (a stale transaction id makes every later '
+               f'compile re-sync and lose changes)', f.loc,
+               sample=f'{attr} = {got}')
+    prune_fns = [f.node]
+    for n in ast.walk(f.node):
+        if isinstance(n, ast.Call) and isinstance(n.func, ast.Attribute) \
+                and n.func.attr in tx.methods and n.args:
+            prune_fns.append(tx.methods[n.func.attr].node)
     tables = set()
-    for lp in prunes:
-        it = lp.iter
-        ok = isinstance(it, ast.Call) and norm(it.func) == 'tuple' and \
-            len(lp.body) == 1 and isinstance(lp.body[0], ast.If) and \
-            norm(lp.body[0].test) == f'{norm(lp.target)} > {spid}'
-        tbl = norm(it.args[0]) if isinstance(it, ast.Call) and it.args \
-            else '?'
-        ok = ok and norm(lp.body[0].body[0]) == \
-            f'{tbl}.pop({norm(lp.target)})'
-        tables.add(tbl)
-        ctx.ob('C09.R7', f'sync_to_savepoint:prune={tbl}', ok,
-               f'later savepoints are not pruned from {tbl} with `id > '
-               f'{spid}` over a snapshot of its keys', f.loc,
-               sample=f'for id in tuple({tbl}): if id > spid: pop')
+    for fn_node in prune_fns:
+        for lp in [n for n in ast.walk(fn_node) if isinstance(n, ast.For)]:
+            it = lp.iter
+            if not (isinstance(it, ast.Call) and norm(it.func) == 'tuple'
+                    and it.args):
+                continue
+            tbl = norm(it.args[0])
+            last = tbl.split('.')[-1]
+            if last not in ('_savepoints', '_savepoints_log'):
+                continue
+            tv_ = norm(lp.target)
+            ok = len(lp.body) == 1 and isinstance(lp.body[0], ast.If) and \
+                isinstance(lp.body[0].test, ast.Compare) and isinstance(
+                    lp.body[0].test.ops[0], ast.Gt) and norm(
+                        lp.body[0].test.left) == tv_ and norm(
+                        lp.body[0].test.comparators[0]) in (
+                            spid, f'{spv}.id', 'sp.id') and norm(
+                        lp.body[0].body[0]) == f'{tbl}.pop({tv_})'
+            tables.add(last)
+            ctx.ob('C09.R7', f'sync_to_savepoint:prune={last}', ok,
+                   f'savepoints declared after the one re-synchronised to '
+                   f'are not pruned from {tbl} with `id > <savepoint id>` '
+                   f'over a snapshot of its keys', f.loc,
+                   sample=f'for id in tuple({tbl}): if id > spid: pop')
     ctx.ob('C09.R7', 'sync_to_savepoint:both-tables',
-           tables == {'self._current_tx._savepoints', 'self._savepoints_log'},
-           f'pruned tables: {sorted(tables)}', f.loc, sample=sorted(tables))
+           tables == {'_savepoints', '_savepoints_log'},
+           f'pruned tables: {sorted(tables)} (both the transaction\'s '
+           f'savepoints and the connection-wide log must be pruned)', f.loc,
+           sample=sorted(tables))
     f = repo.find_method(cs.qualname, 'sync_tx')
     g = CFG(f.node)
     txid = f.params()[1]
@@ -577,8 +664,39 @@ def run(repo: Repo, ctx) -> None:
            sample='return iff ids equal or synced; else raise')
     cit = repo.find_method(f'{COMP}.Compiler', 'compile_in_tx')
     g = CFG(cit.node)
+    comp_cls = repo.cls(f'{COMP}.Compiler')
+
+    def builds_ctx(c: ast.Call) -> bool:
+        if call_name(c) == 'CompileContext':
+            return True
+        if isinstance(c.func, ast.Attribute) and norm(c.func.value) == \
+                'self' and c.func.attr in comp_cls.methods:
+            h = comp_cls.methods[c.func.attr]
+            return any(isinstance(x, ast.Call) and call_name(x) ==
+                       'CompileContext' for x in ast.walk(h.node))
+        return False
     ctxs = [n.id for n in g.nodes if any(
-        call_name(c) == 'CompileContext' for c in g.node_calls(n))]
+        builds_ctx(c) for c in g.node_calls(n))]
+    # expect_rollback reaches the context (else RELEASE/COMMIT/DECLARE sent
+    # in a failed transaction would mutate the compiler state)
+    er_ok = False
+    for c in ast.walk(cit.node):
+        if isinstance(c, ast.Call) and call_name(c) == 'CompileContext':
+            er_ok = norm(kwarg(c, 'expect_rollback')) == 'expect_rollback'
+        elif isinstance(c, ast.Call) and builds_ctx(c):
+            h = comp_cls.methods[c.func.attr]
+            passed = any(norm(a) == 'expect_rollback' for a in c.args) or \
+                any(norm(k.value) == 'expect_rollback' for k in c.keywords)
+            inner = [x for x in ast.walk(h.node) if isinstance(x, ast.Call)
+                     and call_name(x) == 'CompileContext']
+            er_ok = passed and bool(inner) and kwarg(
+                inner[0], 'expect_rollback') is not None
+    ctx.ob('C09.R7', 'Compiler.compile_in_tx:expect_rollback-forwarded',
+           er_ok, 'expect_rollback is not forwarded into the CompileContext '
+           'of an in-transaction compile: non-rollback transaction commands '
+           'sent while the transaction is in its failed state are compiled '
+           '(and change the savepoint state) instead of being rejected',
+           cit.loc, sample='CompileContext(expect_rollback=expect_rollback)')
     syncs = [n.id for n in g.nodes if any(
         norm(c.func) == 'state.sync_tx' and norm(c.args[0]) == 'txid'
         for c in g.node_calls(n))]
